@@ -128,14 +128,17 @@ def check_crystal(part, spec):
         # ---------------- atoms_in_radius, several centres ---------------------------------------------
         if "point" in spec["queries"]:
             centres = [np.zeros(3), np.array([0.37, 0.21, 0.55]) @ M, np.array([1.7, -2.3, 0.4]) @ M, np.array([-0.01, 0.99, 3.2]) @ M,
-                       np.array([3.0, 2.0, 1.0])]
+                       np.array([3.0, 2.0, 1.0]),
+                       # whole-number Cartesian origins written as integers (tuple of ints / int array), negative ones included
+                       (-3, -4, -5), np.array([-14, -9, -11]), (7, -2, 0)]
             for ci, cen in enumerate(centres):
                 part.ev()
                 part.tr()
                 case = dict(base_case, query="atoms_in_radius", radius=radius, centre=list(map(float, cen)), radii=[radius])
                 key = "atoms_in_radius:%s" % rkey
                 try:
-                    got = c.atoms_in_radius(radius, origin=tuple(cen))
+                    got = c.atoms_in_radius(radius, origin=cen if isinstance(cen, (tuple, np.ndarray)) and np.asarray(cen).dtype.kind == "i" else tuple(cen))
+                    cen = np.asarray(cen, dtype=float)
                 except Exception as e:
                     part.fail(key + ":raise", "atoms_in_radius(%g) raised %r [%s]" % (radius, e, label), case)
                     continue
